@@ -318,6 +318,23 @@ def oracles(ctx, deep):
                     add(Violation("shift-inverse", "ifftshift(fftshift(x)) != x for length %d" % n, {"n": n, "axis": d}, {"kind": "shift-inverse", "odd": n % 2 == 1}))
             except Exception as e:  # noqa
                 add(Violation("shift-raises", "fftshift/ifftshift raise %s for length %d" % (type(e).__name__, n), {"n": n, "axis": d}, {"kind": "raises"}))
+    for _ in range(ctx.n(120, 1200)):
+        r = rng.choice([2, 3, 4])
+        shape = [rng.randint(1, 6) for _ in range(r)]
+        k = rng.randint(1, r)
+        dims = rng.sample(range(r), k)
+        x = _iota(shape)
+        runs += 1
+        try:
+            a, b = T.fftshift(x, dim=dims).numpy(), T.ifftshift(x, dim=dims).numpy()
+            ra, rb = np.fft.fftshift(x.numpy(), axes=dims), np.fft.ifftshift(x.numpy(), axes=dims)
+            sh = [rng.randint(-7, 9) for _ in dims]
+            c = T.roll(x, sh, dims).numpy()
+            rc = np.roll(x.numpy(), sh, axis=dims)
+            if not np.array_equal(a, ra) or not np.array_equal(b, rb) or not np.array_equal(c, rc):
+                add(Violation("shift-reference", "roll / fftshift / ifftshift over axes %s of a tensor of shape %s differ from the reference" % (dims, shape), {"shape": shape, "axes": dims, "shifts": sh}, {"kind": "shift-multi", "sorted_axes": dims == sorted(dims)}))
+        except Exception as e:  # noqa
+            add(Violation("shift-raises", "shift helpers raise %s for axes %s, shape %s" % (type(e).__name__, dims, shape), {"shape": shape, "axes": dims}, {"kind": "raises-multi"}))
     # transforms: inverse pair, energy, reference DFT
     lens = list(range(1, 10)) if not deep else list(range(1, 13))
     trials = ctx.n(260, 2500) * (2 if deep else 1)
@@ -329,7 +346,7 @@ def oracles(ctx, deep):
         lead = [rng.randint(1, 2) for _ in range(rank - 1 - nd)]
         # transformed axes anywhere among the non-complex axes
         axes_all = list(range(rank - 1))
-        dims = tuple(sorted(rng.sample(axes_all, nd))) if len(axes_all) >= nd else None
+        dims = tuple(rng.sample(axes_all, nd)) if len(axes_all) >= nd else None  # any order of the axes
         if dims is None:
             continue
         shape = [rng.randint(1, 2) for _ in range(rank - 1)]
